@@ -583,11 +583,13 @@ func (s *Snapshotter) replay() error {
 
 	// Read each line
 	reader := bufio.NewReader(s.fh)
+	var complete int64
 	for {
 		line, err := reader.ReadString('\n')
 		if err != nil {
 			break
 		}
+		complete += int64(len(line))
 
 		// Skip the newline
 		line = line[:len(line)-1]
@@ -654,6 +656,17 @@ func (s *Snapshotter) replay() error {
 		} else {
 			s.logger.Printf("[WARN] serf: Unrecognized snapshot line: %v", line)
 		}
+	}
+
+	// A write that was cut short leaves a last line without a newline. It
+	// was ignored above, drop it from the file as well, otherwise the next
+	// line we append would be glued to it.
+	if complete < s.offset {
+		s.logger.Printf("[WARN] serf: Dropping incomplete last line of snapshot")
+		if err := s.fh.Truncate(complete); err != nil {
+			return err
+		}
+		s.offset = complete
 	}
 
 	// Seek to the end
